@@ -35,6 +35,12 @@ on and raises Unsupported otherwise.
     the function body (the extracted function describes the first call on a fresh object), and
     the written attributes are rebound:  (x_A1, ..., x_An, r) = f(...).
     Keyword arguments and defaults of m are resolved against m's signature (constant defaults).
+  * a PARAMETER that is an object of a configured class (`position_filter` of
+    filter/position_filter.py:_filter_tables_split): the object was constructed by the caller, so
+    nothing is inlined; every read `obj.A` of an attribute A that the class' constructor chain
+    stores (`self.A = ...`) becomes the new parameter `obj_A` ("the value of the attribute"), the
+    parameter obj itself disappears; obj may otherwise only be used as `obj.m(args)` for a configured
+    method that does not change the object's state.
   * `f = get_sim_function(<measure>)`: removed; `f` becomes a function PARAMETER of the
     generated definition (pyval -> pyval -> pyval).  f may only be called, with two arguments.
   * `g = COMP_OP_MAP[e]`: kept; py2coq turns it into a lookup in the generated `comp_op_map`
@@ -54,6 +60,14 @@ EXPECTED_IMPORTS = {
     'xrange': 'six.moves',
     'PositionFilter': 'py_stringsimjoin.filter.position_filter',
     'PositionIndex': 'py_stringsimjoin.index.position_index',
+    'PrefixFilter': 'py_stringsimjoin.filter.prefix_filter',
+    'PrefixIndex': 'py_stringsimjoin.index.prefix_index',
+    'OverlapFilter': 'py_stringsimjoin.filter.overlap_filter',
+    'SizeFilter': 'py_stringsimjoin.filter.size_filter',
+    'SizeIndex': 'py_stringsimjoin.index.size_index',
+    'InvertedIndex': 'py_stringsimjoin.index.inverted_index',
+    'validate_tokenizer': 'py_stringsimjoin.utils.validation',
+    'validate_comp_op_for_sim_measure': 'py_stringsimjoin.utils.validation',
     'find_output_attribute_indices': 'py_stringsimjoin.utils.generic_helper',
     'get_output_header_from_tables': 'py_stringsimjoin.utils.generic_helper',
     'get_output_row_from_tables': 'py_stringsimjoin.utils.generic_helper',
@@ -72,8 +86,8 @@ BUILTINS = {'len', 'round', 'range', 'True', 'False', 'None', 'min', 'max', 'int
 # module-qualified names that may appear only inside statements that are dropped / rewritten
 IMPORTED_MODULES = {'pd': 'pandas', 'pyprind': 'pyprind'}
 
-ISINSTANCE_ONLY = {'validate_tokenizer_for_sim_measure'}
-KEPT_VALIDATORS = {'validate_sim_measure_type', 'validate_threshold'}
+ISINSTANCE_ONLY = {'validate_tokenizer_for_sim_measure', 'validate_tokenizer'}
+KEPT_VALIDATORS = {'validate_sim_measure_type', 'validate_threshold', 'validate_comp_op_for_sim_measure'}
 
 
 def module_path(repo, dotted):
@@ -311,7 +325,9 @@ class JoinPreparer:
                     isinstance(s.value.func, ast.Name) and s.value.func.id == 'get_sim_function':
                 if len(s.targets) != 1 or not isinstance(s.targets[0], ast.Name) or \
                         len(s.value.args) != 1 or s.value.keywords or \
-                        not isinstance(s.value.args[0], ast.Name) or s.value.args[0].id not in self.params:
+                        not isinstance(s.value.args[0], ast.Name) or \
+                        not (s.value.args[0].id in self.params or
+                             assigned_anywhere(self.fn).get(s.value.args[0].id) == 1):
                     raise Unsupported('get_sim_function shape')
                 f = s.targets[0].id
                 if assigned_anywhere(self.fn).get(f) != 1 or f in self.params:
@@ -325,6 +341,83 @@ class JoinPreparer:
         for n in ast.walk(self.fn):
             if isinstance(n, ast.Name) and n.id == 'get_sim_function':
                 raise Unsupported('get_sim_function used below the top level')
+
+    # ------------------------------------------------------------------ object parameters
+    def init_attrs(self, rel, cls_name, depth=0):
+        """attributes stored by the constructor chain of a class, in order"""
+        if depth > 3:
+            raise Unsupported('constructor chain too deep')
+        tree = self.tree_of(rel)
+        cls = methods.find_class(tree, cls_name)
+        out = []
+        inits = [n for n in cls.body if isinstance(n, ast.FunctionDef) and n.name == '__init__']
+        if inits:
+            for n in ast.walk(inits[0]):
+                if isinstance(n, ast.Attribute) and isinstance(n.value, ast.Name) and n.value.id == 'self' and \
+                        isinstance(n.ctx, ast.Store) and n.attr not in out:
+                    out.append(n.attr)
+        for b in cls.bases:
+            if isinstance(b, ast.Name) and b.id != 'object':
+                names, _ = import_table(tree)
+                if b.id not in names or EXPECTED_IMPORTS.get(b.id) != names[b.id][0]:
+                    raise Unsupported('base class %s of %s' % (b.id, cls_name))
+                brel = os.path.relpath(module_path(self.repo, names[b.id][0]), self.repo)
+                out += [a for a in self.init_attrs(brel, b.id, depth + 1) if a not in out]
+        return out
+
+    def object_params(self, cfg):
+        prep = self
+        self.param_objs = {}
+        for name, cls_name in cfg.items():
+            if name not in self.params:
+                continue
+            if name in assigned_anywhere(self.fn):
+                raise Unsupported('object parameter %s is rebound' % name)
+            rel = self.objects[cls_name]
+            attrs = self.init_attrs(rel, cls_name)
+            info = ObjectInfo(name, rel, cls_name)
+            info.is_param = True
+            for a in attrs:
+                info.attr[a] = ast.Name(id='%s_%s' % (name, a), ctx=ast.Load())
+            locs = methods.local_names(self.fn)
+            for a in attrs:
+                if '%s_%s' % (name, a) in locs:
+                    raise Unsupported('name clash %s_%s' % (name, a))
+
+            class Rd(ast.NodeTransformer):
+                def visit_Call(s2, c):
+                    if isinstance(c.func, ast.Attribute) and isinstance(c.func.value, ast.Name) and \
+                            c.func.value.id == name:
+                        c.args = [s2.visit(a) for a in c.args]
+                        c.keywords = [ast.keyword(arg=k.arg, value=s2.visit(k.value)) for k in c.keywords]
+                        return c
+                    return s2.generic_visit(c)
+
+                def visit_Attribute(s2, n):
+                    if isinstance(n.value, ast.Name) and n.value.id == name:
+                        if not isinstance(n.ctx, ast.Load) or n.attr not in info.attr:
+                            raise Unsupported('use of %s.%s' % (name, n.attr))
+                        return ast.Name(id='%s_%s' % (name, n.attr), ctx=ast.Load())
+                    return s2.generic_visit(n)
+            self.fn = Rd().visit(self.fn)
+            self.objs[name] = info
+            self.param_objs[name] = attrs
+            # provisional parameter list (pruned to the attributes actually used in finish_params)
+            k = self.params.index(name)
+            self.params[k:k + 1] = ['%s_%s' % (name, a) for a in attrs]
+
+    def finish_params(self):
+        used = set(n.id for n in ast.walk(self.fn) if isinstance(n, ast.Name))
+        new = []
+        for a in self.fn.args.args:
+            if a.arg in getattr(self, 'param_objs', {}):
+                kept = ['%s_%s' % (a.arg, x) for x in self.param_objs[a.arg] if '%s_%s' % (a.arg, x) in used]
+                new += [ast.arg(arg=k) for k in kept]
+                self.notes.append('parameter %s (a %s constructed by the caller) replaced by its attributes %s'
+                                  % (a.arg, self.objs[a.arg].cls_name, ', '.join(kept)))
+            else:
+                new.append(a)
+        self.fn.args.args = new
 
     # ------------------------------------------------------------------ constructors
     def never_rebound_param(self, e):
@@ -508,6 +601,8 @@ class JoinPreparer:
                         if not (isinstance(e, ast.Name) and e.id == '%s_%s' % (o.var, a)):
                             raise Unsupported('%s.%s is not held in a local' % (o.var, a))
                 args.append(copy.deepcopy(v))
+            if inf['state'] and getattr(info, 'is_param', False):
+                raise Unsupported('state-changing %s.%s on an object constructed by the caller' % (var, m))
             if inf['state']:
                 if not top or seen.get((var, m)):
                     raise Unsupported('state-changing %s.%s must be called once, at the top level' % (var, m))
@@ -525,6 +620,12 @@ class JoinPreparer:
         def walk(ss, top):
             out = []
             for s in ss:
+                if isinstance(s, ast.Expr) and is_obj_call(s.value):
+                    # result discarded: bind it to a name nothing reads
+                    unused = '%s__%s_result' % (s.value.func.value.id, s.value.func.attr)
+                    if unused in methods.local_names(prep.fn):
+                        raise Unsupported('name clash ' + unused)
+                    s = ast.Assign(targets=[ast.Name(id=unused, ctx=ast.Store())], value=s.value)
                 if isinstance(s, ast.Assign) and is_obj_call(s.value):
                     if len(s.targets) != 1 or not isinstance(s.targets[0], ast.Name):
                         raise Unsupported('target of a method call')
@@ -543,6 +644,20 @@ class JoinPreparer:
                 out.append(s)
             return out
         self.fn.body = walk(self.fn.body, True)
+        # obj.attr (read) -> the local holding the attribute
+        class Attr(ast.NodeTransformer):
+            def visit_Attribute(s2, n):
+                if isinstance(n.value, ast.Name) and n.value.id in prep.objs:
+                    o = prep.objs[n.value.id]
+                    e = o.attr.get(n.attr)
+                    if not isinstance(n.ctx, ast.Load) or e is None:
+                        raise Unsupported('use of %s.%s' % (o.var, n.attr))
+                    if not isinstance(e, ast.Name):
+                        raise Unsupported('%s.%s is not held in a name' % (o.var, n.attr))
+                    prep.notes.append('%s.%s read as %s' % (o.var, n.attr, e.id))
+                    return ast.Name(id=e.id, ctx=ast.Load())
+                return s2.generic_visit(n)
+        self.fn = Attr().visit(self.fn)
         # every remaining use of an object variable must be as the object argument we just checked
         allowed = set()
         for n in ast.walk(self.fn):
@@ -555,13 +670,15 @@ class JoinPreparer:
             if isinstance(n, ast.Name) and n.id in self.objs and id(n) not in allowed:
                 raise Unsupported('object %s is used other than through a configured method' % n.id)
 
-    def prepare(self, extracted):
+    def prepare(self, extracted, obj_params=None):
         check_imports(self.tree, self.fn)
         self.rewrite_result()
         self.drop_progress()
+        self.object_params(obj_params or {})
         self.function_values()
         self.inline_objects()
         self.method_calls(extracted)
+        self.finish_params()
         ast.fix_missing_locations(self.fn)
         fn = ast.parse(ast.unparse(self.fn)).body[0]
         return fn
